@@ -671,6 +671,17 @@ impl World {
     /// apply at the committer, join the added parties. Returns Ok(None) when the library refused
     /// to build the commit (the caller decides whether that matters).
     pub fn commit_round(&mut self, committer: usize, spec: &CommitSpec) -> Result<Result<CommitInfo, OpErr>, Failure> {
+        self.commit_round_with(committer, spec, &mut |_, _, _| Ok(()))
+    }
+
+    /// `commit_round` with a hook that runs right before each receiver processes the genuine
+    /// commit (used to inject rejected messages, withhold PSKs, ...).
+    pub fn commit_round_with(
+        &mut self,
+        committer: usize,
+        spec: &CommitSpec,
+        hook: &mut dyn FnMut(&mut World, usize, &[u8]) -> CaseResult,
+    ) -> Result<Result<CommitInfo, OpErr>, Failure> {
         let prop = self.prop;
         self.flush(spec.order)?;
         let epoch_before = self.epoch;
@@ -705,6 +716,7 @@ impl World {
             if *m == committer {
                 continue;
             }
+            hook(self, *m, &commit_bytes)?;
             let r = self.process(*m, &commit_bytes);
             match r {
                 Err(e) if e.is_panic() => return Err(panic_failure(prop, "process_incoming_message(commit)", &e)),
@@ -877,6 +889,19 @@ impl World {
         tree_in_info: bool,
         order: u16,
     ) -> Result<Result<CommitInfo, OpErr>, Failure> {
+        self.external_commit_round_with(joiner, via, remove_leaf, tree_in_info, order, &mut |_, _, _| Ok(()))
+    }
+
+    #[allow(clippy::too_many_arguments)]
+    pub fn external_commit_round_with(
+        &mut self,
+        joiner: usize,
+        via: usize,
+        remove_leaf: Option<u32>,
+        tree_in_info: bool,
+        order: u16,
+        hook: &mut dyn FnMut(&mut World, usize, &[u8]) -> CaseResult,
+    ) -> Result<Result<CommitInfo, OpErr>, Failure> {
         let prop = self.prop;
         self.flush(order)?;
         let epoch_before = self.epoch;
@@ -927,6 +952,7 @@ impl World {
             if *m == joiner {
                 continue;
             }
+            hook(self, *m, &commit_bytes)?;
             match self.process(*m, &commit_bytes) {
                 Err(e) if e.is_panic() => return Err(panic_failure(prop, "process_incoming_message(external commit)", &e)),
                 Err(e) => {
